@@ -43,6 +43,10 @@ def cases(draw, max_nodes):
     if draw(st.sampled_from([True, False, False])):
         cfg["workers"] = len(spec["nodes"]) + draw(st.integers(1, 3))
     case = {"spec": spec, "cfg": cfg, "sched": draw(harness.schedules()), "registry": use_reg}
+    if draw(st.integers(0, 5)) == 0:
+        # the OS refuses to start the k-th thread run asks for (thread / pid limit)
+        case["sched"] = draw(harness.schedules(det_only=True))
+        case["thread_start_fails"] = draw(st.integers(1, 2 * cfg["workers"]))
     if draw(st.sampled_from([True, False, False, False])):
         # a back edge b -> a with a a strict ancestor of b
         cands = []
@@ -86,7 +90,16 @@ def check_case(ctx, case, record=True):
     def after(out):
         mark["n"] = len(w.events)
 
-    out = harness.execute(lambda: w.run(cfg, registry=case["registry"]), sc, after=after)
+    tsf = case.get("thread_start_fails")
+
+    def thunk():
+        if tsf and sc.get("mode") != "real":
+            from vlib import detsched
+            detsched._current.fail_thread_start = tsf
+        return w.run(cfg, registry=case["registry"])
+
+    out = harness.execute(thunk, sc, after=after)
+    fired = bool(tsf) and out.sched is not None and getattr(out.sched, "thread_starts", 0) >= tsf
     if out.mode == "real":
         time.sleep(0.001)
     case2 = dict(case, sched=harness.with_trace(sc, out))
@@ -101,8 +114,12 @@ def check_case(ctx, case, record=True):
             cl.append("workers>nodes")
         if not spec["nodes"]:
             cl.append("empty_plan")
+        if fired:
+            cl.append("thread_start_refused")
         nt = (workers >= 2 and nfail > 0) or workers > len(spec["nodes"]) or cyclic
         ctx.case(case, nt, cl)
+    if fired and out.status == "ok" and not cyclic:
+        ctx.violation(case2, f"the start of thread {tsf} was refused but run returned normally ({out.value!r})")
     if out.verdict:
         ctx.violation(case2, f"run did not terminate: scheduler verdict {out.verdict}; tasks: {out.verdict_info}")
     if out.uncaught:
@@ -111,7 +128,7 @@ def check_case(ctx, case, record=True):
         ctx.violation(case2, f"threads created by run still alive when it returned: {out.alive_after}")
     if "n" in mark and len(w.events) > mark["n"]:
         ctx.violation(case2, f"events logged after run returned: {[(e[1], e[2]) for e in w.events[mark['n']:]]}")
-    if cyclic:
+    if cyclic and not fired:
         to = specs.ref_index(spec["back"][0][1])
         if case["registry"] and refmodel.entries(spec):
             examined = True  # a non-empty registry makes the stale check examine the whole plan
